@@ -55,10 +55,11 @@ def gen_config(rng, maxit):
             if np.all(start[:3] >= lo - 0.05 * half) and np.all(start[:3] <= hi + 0.05 * half):
                 continue
             boxes.append([lo.tolist(), hi.tolist()])
-    callbacks = gen.pick(rng, ["builtin", "builtin", "custom"])
+    callbacks = gen.pick(rng, ["builtin", "builtin", "custom", "mixed"])
     return {"bounds": bounds, "dmode": dmode, "min": mn, "max": mx, "iterations": it, "limit": int(rng.integers(1, 21)), "layout": layout,
             "boxes": boxes, "terrain": [half, half, half / 4, half / 4, 0.2 * half] if layout == "terrain" else None,
             "start": start.tolist(), "goal": np.concatenate([rng.uniform(-half, half, 3), np.zeros(3)]).tolist(), "callbacks": callbacks,
+            "custom_parts": [bool(x) for x in (rng.random(3) < 0.5)] if callbacks == "mixed" else [callbacks == "custom"] * 3,
             "seed": int(rng.integers(1 << 30))}
 
 
@@ -135,9 +136,11 @@ def run_case(cfg, ctx, tm, fsr, RRTStar, PathNode):
         pb = np.asarray(b.getPosition().gTAA()).reshape(6)[:3]
         return any(segbox.hit_exact(pa.tolist(), pb.tolist(), lo.tolist(), hi.tolist()) for lo, hi in boxes) or bool(abs(pa[0] - pb[0]) < 1e-3)
 
-    gen_f = my_gen if custom else pl.randomPos
-    dist_f = my_dist if custom else pl.distance
-    coll_f = my_coll if custom else pl.obstruction
+    parts = cfg.get("custom_parts", [custom] * 3)
+    gen_f = my_gen if parts[0] else pl.randomPos
+    dist_f = my_dist if parts[1] else pl.distance
+    coll_f = my_coll if parts[2] else pl.obstruction
+    custom = bool(parts[2])          # below: 'custom' only decides whether edges are also checked against the exact box oracle
 
     def gen_rec():
         n = gen_f()
@@ -149,7 +152,7 @@ def run_case(cfg, ctx, tm, fsr, RRTStar, PathNode):
         rec("coll", a=key6(a.getPosition()), b=key6(b.getPosition()), r=bool(r))
         return r
     goal = tm(np.array(cfg["goal"], dtype=float))
-    tagm = "custom" if custom else "builtin"
+    tagm = cfg["callbacks"]
     try:
         path = pl.findPathGeneral(lambda: pl.generalGenerateTree(gen_rec, dist_f, coll_rec), goal)
     except ZeroDivisionError as e:
